@@ -69,6 +69,23 @@ def gen_cases(tier, seed):
                                                    'kind': rng.choice(STREAM_KINDS), 'tag': f'FAULT-{st}-{j}'})
                         spec['plan']['faults'] = faults
                     cases.append(spec)
+                # mixed sequences within one range: a body fault after some bytes, then a connection error raised by the request
+                # itself, then success (and the other orders)
+                for v in range(2 if quick else 6):
+                    cfg = dict(multipart_threshold=T, multipart_chunksize=C, io_chunksize=rng.choice([1, 3, 4]),
+                               max_request_concurrency=rng.choice([1, 2, 3]), num_download_attempts=4)
+                    rs = [('all', size)] if size < T else [(str(i * C), min(C, size - i * C)) for i in range((size + C - 1) // C)]
+                    st, ln = rng.choice(rs)
+                    seq = rng.choice([['body', 'req'], ['req', 'body'], ['body', 'req', 'body'], ['req', 'req'], ['body', 'body', 'req']])
+                    faults = []
+                    for j, what in enumerate(seq):
+                        if what == 'body':
+                            faults.append({'at': f't0/s3:GetObject:{st}#{j}', 'phase': 'body', 'bytes': rng.randrange(0, ln + 1),
+                                           'kind': rng.choice(STREAM_KINDS), 'tag': f'FAULT-m{j}'})
+                        else:
+                            faults.append({'at': f't0/s3:GetObject:{st}#{j}', 'phase': rng.choice(['before', 'after']), 'kind': 'connreset', 'tag': f'FAULT-m{j}'})
+                    cases.append({'seed': rng.randrange(1 << 30), 'config': cfg, 'transfers': [{'kind': 'download', 'dst': dst, 'size': size}],
+                                  'get_read_caps': rng.choice([None, [[2], [3]]]), 'plan': {'faults': faults}})
             for provide in (False, True):
                 t = {'kind': 'copy', 'size': size}
                 if provide:
